@@ -363,6 +363,17 @@ def check(ctx):
             if tr.kind == "LOSS":
                 hazards.append((f, "prefired/%s" % rg, "errback() of a request taken from %s without testing .called: %s stores an already "
                                 "fired Deferred there (%s), AlreadyCalledError" % (rg, tr0.label(), where(st0))))
+        seen_kept = set()
+        for tr, what, ok, ev in hd.loss_obligations():
+            # a keepalive handle that the loss stops/cancels but leaves stored: the next loss of this protocol object finds it
+            # still there and stops/cancels it again - stop() of a LoopingCall that is not running and cancel() of a cancelled
+            # call both raise
+            if what.startswith("keepalive ") and not ok and ev is not None and what not in seen_kept:
+                seen_kept.add(what)
+                hazards.append((ev, "stopped-handle-kept/%s" % what.split()[1],
+                                "connectionLost stops the keepalive %s but leaves the stopped handle stored: a later loss of the same protocol "
+                                "object (one on which it was not started again, e.g. keepalive 0 or a loss before CONNACK) stops it a second "
+                                "time, which raises" % what.split()[1]))
         for e, what, why in hazards:
             idle_before = False
             for tr in contexts(cat):
